@@ -165,11 +165,14 @@ class C11(Config):
         "legacy Sapling / transparent encodings (zcash_keys::encoding): theorems at the level of the regenerated HRP / prefix "
         "tables and of the model above Bech32 / Base58Check; the Bech32 and Base58Check layers themselves are oracles "
         "(inverted by the harness with the bech32 / bs58 crates); AddressCodec for UnifiedAddress is harness-observed only",
-        "Bech32m and F4Jumble layers are oracles (inverted by the harness with the primitive crates)",
+        "Bech32m / F4Jumble / Bech32 / Base58Check: string-level round-trip theorems use the proved C10 model of these layers "
+        "(BLAKE2b inside F4Jumble stays a parameter); the correspondence still enters below these layers (the harness inverts "
+        "them with the primitive crates), so agreement of the C10 model with the crates is C10's correspondence, not C11's",
         "gap_limits.rs: modelled and proved at entry level (every listed address is the key's at its index); the wallet's "
         "AddressStore is an input (mock store in the harness)",
-        "find_address: 'first valid index at or after j' is proved; termination within the index space is proved only "
-        "in the sense that the model needs at most 2^88 - j iterations (Sapling diversifier validity is probabilistic)",
+        "find_address: 'first valid index at or after j' and termination under the explicit hypothesis 'some index within "
+        "the fuel is not skipped' are proved, with the fuel bound 2^88 - j; that such an index exists close to j is "
+        "probabilistic (Sapling diversifier validity) and not proved",
     ]
 
     @staticmethod
